@@ -11,10 +11,13 @@ import (
 	"fmt"
 	"io"
 	"mime"
+	"os"
 	"path/filepath"
 	"regexp"
 	"sort"
 	"strings"
+	"sync"
+	"text/template"
 
 	mail "github.com/wneessen/go-mail"
 	"verif/harness/hx"
@@ -51,6 +54,7 @@ type PartSpec struct {
 	Charset string // "" = message default
 	Desc    string
 	Prod    Producer
+	Src     string // builder entry point: "" = Set/AddAlternativeWriter, "str" = SetBodyString / AddAlternativeString
 }
 
 type FileSpec struct {
@@ -60,6 +64,10 @@ type FileSpec struct {
 	Desc  string
 	CID   string // "" = synthesised
 	Prod  Producer
+	// Src selects the builder entry point the content goes through: "" = the harness' own Writer function,
+	// "buf" = AttachReader/EmbedReader with a *bytes.Buffer that the caller reuses afterwards, "rs" = …ReadSeeker,
+	// "file" = AttachFile/EmbedFile of a real file, "tpl" = …TextTemplate.  (Not with a failing producer.)
+	Src string
 }
 
 type KV struct {
@@ -138,9 +146,14 @@ func (s *MsgSpec) Build() (*mail.Msg, error) {
 		if p.Desc != "" {
 			po = append(po, mail.WithPartContentDescription(p.Desc))
 		}
-		if i == 0 {
+		switch {
+		case p.Src == "str" && i == 0:
+			m.SetBodyString(mail.ContentType(p.CType), string(p.Prod.Content()), po...)
+		case p.Src == "str":
+			m.AddAlternativeString(mail.ContentType(p.CType), string(p.Prod.Content()), po...)
+		case i == 0:
 			m.SetBodyWriter(mail.ContentType(p.CType), p.Prod.Write, po...)
-		} else {
+		default:
 			m.AddAlternativeWriter(mail.ContentType(p.CType), p.Prod.Write, po...)
 		}
 	}
@@ -159,6 +172,45 @@ func (s *MsgSpec) Build() (*mail.Msg, error) {
 			fo = append(fo, mail.WithFileContentID(f.CID))
 		}
 		var err error
+		content := f.Prod.Content()
+		switch f.Src {
+		case "buf":
+			// the caller's buffer is reused for something else after the call (as in a loop that fills one
+			// buffer per file): the Msg must have taken its own copy
+			buf := bytes.NewBuffer(append(make([]byte, 0, len(content)+64), content...))
+			if embed {
+				err = m.EmbedReader(f.Name, buf, fo...)
+			} else {
+				err = m.AttachReader(f.Name, buf, fo...)
+			}
+			buf.Reset()
+			buf.Write(bytes.Repeat([]byte{'#'}, len(content)+32))
+			return err
+		case "rs":
+			if embed {
+				m.EmbedReadSeeker(f.Name, bytes.NewReader(content), fo...)
+			} else {
+				m.AttachReadSeeker(f.Name, bytes.NewReader(content), fo...)
+			}
+			return nil
+		case "file":
+			path, ferr := tempFile(content)
+			if ferr != nil {
+				return ferr
+			}
+			fo = append(fo, mail.WithFileName(f.Name))
+			if embed {
+				m.EmbedFile(path, fo...)
+			} else {
+				m.AttachFile(path, fo...)
+			}
+			return nil
+		case "tpl":
+			if embed {
+				return m.EmbedTextTemplate(f.Name, verbatimTpl, string(content), fo...)
+			}
+			return m.AttachTextTemplate(f.Name, verbatimTpl, string(content), fo...)
+		}
 		if embed {
 			err = m.EmbedReader(f.Name, bytes.NewReader(nil), fo...)
 		} else {
@@ -187,6 +239,40 @@ func (s *MsgSpec) Build() (*mail.Msg, error) {
 		}
 	}
 	return m, nil
+}
+
+var verbatimTpl = template.Must(template.New("verbatim").Parse("{{.}}"))
+
+var (
+	tmpMu  sync.Mutex
+	tmpDir string
+	tmpSeq int
+)
+
+// tempFile stores content in a file of a per-process scratch directory (removed by CleanTemp).
+func tempFile(content []byte) (string, error) {
+	tmpMu.Lock()
+	defer tmpMu.Unlock()
+	if tmpDir == "" {
+		d, err := os.MkdirTemp("", "verif-bytex-")
+		if err != nil {
+			return "", err
+		}
+		tmpDir = d
+	}
+	tmpSeq++
+	p := filepath.Join(tmpDir, fmt.Sprintf("f%d.dat", tmpSeq))
+	return p, os.WriteFile(p, content, 0o600)
+}
+
+// CleanTemp removes the scratch directory of tempFile.
+func CleanTemp() {
+	tmpMu.Lock()
+	defer tmpMu.Unlock()
+	if tmpDir != "" {
+		_ = os.RemoveAll(tmpDir)
+		tmpDir = ""
+	}
 }
 
 func h(s string) string { return hx.Hex([]byte(s)) }
